@@ -61,7 +61,16 @@ class UnserExc(Exception):
         raise RuntimeError('unserializable exception')
 
 
-EXC = {'E1': E1, 'E2': E2, 'Unser': UnserExc, 'KeyError': KeyError}
+class FlexExc(Exception):
+    """One exception TYPE whose instances may or may not be serializable (args[0] == 'bad' -> not)."""
+
+    def __getstate__(self):
+        if self.args and self.args[0] == 'bad':
+            raise RuntimeError('this instance cannot be serialized')
+        return dict(self.__dict__)
+
+
+EXC = {'E1': E1, 'E2': E2, 'Unser': UnserExc, 'KeyError': KeyError, 'FlexBad': (lambda m: FlexExc('bad')), 'FlexGood': (lambda m: FlexExc('good'))}
 
 
 def _lib_exc():
@@ -545,6 +554,25 @@ def make_spy(inner, save_raises=False):
 
 
 # ---------------------------------------------------------------------------------------------- running programs
+_CURRENT_SCRIPT = [None]
+_RANDOM_SEAM = []
+
+
+def _install_random_seam():
+    import random as _random_mod
+    import playback.tape_recorder as T
+    if _RANDOM_SEAM:
+        return [] if _RANDOM_SEAM[0] else ['tape_recorder: no module-level name bound to random.Random']
+    names = [n for n, v in vars(T).items() if v is _random_mod.Random]
+
+    def factory(*a, **k):
+        return _CURRENT_SCRIPT[0] if _CURRENT_SCRIPT[0] is not None else _random_mod.Random(*a, **k)
+    for n in names:
+        setattr(T, n, factory)
+    _RANDOM_SEAM.append(names)
+    return [] if names else ['tape_recorder: no module-level name bound to random.Random']
+
+
 class Env(object):
     """One recorder + spy cassette + operation class for a program family."""
 
@@ -554,7 +582,12 @@ class Env(object):
         from playback.tape_cassettes.in_memory.in_memory_tape_cassette import InMemoryTapeCassette
         self.inner = inner if inner is not None else InMemoryTapeCassette()
         self.spy = make_spy(self.inner, save_raises)
-        self.tr = TapeRecorder(self.spy, random_seed=seed)
+        self.draws = None
+        if draws is not None:
+            self.tr = self._scripted_recorder(draws, seed)
+        else:
+            _CURRENT_SCRIPT[0] = None   # (a scripted environment may have been bound before in this process)
+            self.tr = TapeRecorder(self.spy, random_seed=seed)
         if enabled:
             self.tr.enable_recording()
         self.funcs = dict(DEFAULT_FUNCS)
@@ -570,12 +603,12 @@ class Env(object):
         self.kind = kind
         self.classes = {name: (self.cls, kind)}
         self.default_cls = name
-        self.draws = None
-        if draws is not None:
-            self.script_draws(draws)
 
-    def script_draws(self, draws):
-        env = self
+    def _scripted_recorder(self, draws, seed):
+        """A recorder whose random source is a scripted stub.  The name bound to random.Random in the recorder's module (found by
+        identity) is replaced ONCE per process by a factory that hands out the stub of the environment that is currently bound
+        (and a real Random(seed) otherwise), so it also works if the recorder creates its generator lazily."""
+        from playback.tape_recorder import TapeRecorder
 
         class Scripted(object):
             def __init__(self):
@@ -586,14 +619,22 @@ class Env(object):
                 self.n += 1
                 return self.seq.pop(0) if self.seq else 0.5
         self.draws = Scripted()
-        if hasattr(self.tr, '_random'):
-            self.tr._random = self.draws
-        else:
-            env.seams_missing = ['TapeRecorder._random']
+        self.seams_missing = _install_random_seam()
+        _CURRENT_SCRIPT[0] = self.draws
+        return TapeRecorder(self.spy, random_seed=seed)
+
+    def script_draws(self, draws):
+        """Replaces the script of an already scripted recorder (histories)."""
+        if self.draws is None:
+            raise RuntimeError('recorder was not created with scripted draws')
+        self.draws.seq = list(draws)
+        self.draws.n = 0
+
 
     def bind(self):
         RT.tr = self.tr
         RT.funcs = self.funcs
+        _CURRENT_SCRIPT[0] = self.draws
 
     def add_class(self, name, kind='inst', ext=None, params=None):
         c = build_class(self.tr, name, kind, ext, params, self.funcs)
@@ -604,9 +645,22 @@ class Env(object):
         cls, kind = self.classes.get(prog.get('cls') or self.default_cls, (self.cls, self.kind))
         if cls is self.classes[self.default_cls][0]:
             cls = self.cls   # (possibly the subclass)
-        if kind == 'inst':
-            return cls().execute(prog)
-        return cls.execute(prog)
+        call = (lambda: cls().execute(prog)) if kind == 'inst' else (lambda: cls.execute(prog))
+        ctx = prog.get('call_context')
+        if ctx == 'except':      # the service calls the operation while it is handling another exception (a fallback path)
+            try:
+                raise LookupError('primary path failed')
+            except LookupError:
+                return call()
+        if ctx == 'finally':     # ... or from a finally block while an exception propagates
+            try:
+                try:
+                    raise LookupError('primary path failed')
+                finally:
+                    r = call()
+            except LookupError:
+                return r
+        return call()
 
 
 class Run(object):
@@ -727,6 +781,10 @@ def twin(prog):
 # ---------------------------------------------------------------------------------------------- reference interpreter
 class _RefIntr(Exception):
     pass
+
+
+def _exc_name(key):
+    return 'FlexExc' if key.startswith('Flex') else EXC[key].__name__
 
 
 def ref(prog, enabled=True, draw=None, save_raises=False, funcs=None):
@@ -860,9 +918,9 @@ def ref(prog, enabled=True, draw=None, save_raises=False, funcs=None):
         else:
             raise _RefExc(end.split(':')[1])
     except _RefExc as e:
-        R['outcome'] = ('raise', EXC[e.args[0]].__name__)
+        R['outcome'] = ('raise', _exc_name(e.args[0]))
         if st['active']:
-            R['op'] = ('eform' if e.args[0] == 'Unser' else 'e', EXC[e.args[0]].__name__)
+            R['op'] = ('eform' if e.args[0] in ('Unser', 'FlexBad') else 'e', _exc_name(e.args[0]))
     except _RefIntr:
         R['outcome'] = ('raise', 'Interrupt')
     R['obs'] = obs_canon(obs)
@@ -999,8 +1057,8 @@ def ref_replay(R, prog2, funcs=None):
         out['op'] = ('v', obs_canon(obs))
         out['outcome'] = ('ret',)
     except _RefExc as e:
-        out['op'] = ('eform' if e.args[0] == 'Unser' else 'e', EXC[e.args[0]].__name__)
-        out['outcome'] = ('raise', EXC[e.args[0]].__name__)
+        out['op'] = ('eform' if e.args[0] in ('Unser', 'FlexBad') else 'e', _exc_name(e.args[0]))
+        out['outcome'] = ('raise', _exc_name(e.args[0]))
     except _RefIntr:
         out['outcome'] = ('raise', 'Interrupt')
     except _Escape as e:
